@@ -220,18 +220,29 @@ class DataPath:
     def to_part_specs(self):
         parts = []
         for i in self.parts:
-            try:
-                part_spec = i.condition.callable.kwargs["value"]
-            except KeyError:
-                if isinstance(i, MapOrListValue):
-                    part_spec = i.list_condition.callable.kwargs["value"]
-                elif i.CONTAINER_TYPE is Container.MAP:
-                    part_spec = {"type": "map_value"}
-                elif i.CONTAINER_TYPE is Container.LIST:
-                    part_spec = {"type": "list_value"}
-                else:
-                    raise RuntimeError(f"Cannot convert part to a part spec: {i!r}.")
+            part_spec = None
+            for cnd in (i.condition, getattr(i, "list_condition", None)):
+                # a part that is equivalent to a primitive is written as that primitive:
+                try:
+                    value = cnd.callable.kwargs["value"]
+                    if DataPath(value).parts[0] == i:
+                        part_spec = value
+                        break
+                except (AttributeError, KeyError, TypeError):
+                    continue
+            if part_spec is None:
+                # otherwise write the full part spec (conditions and label):
+                part_spec = i.to_spec()
             parts.append(part_spec)
+
+        if (
+            self.parts
+            and not self.is_concrete
+            and not any(isinstance(i, dict) for i in parts)
+        ):
+            # primitives only would be read back as a concrete path:
+            parts[-1] = self.parts[-1].to_spec()
+
         return parts
 
     @classmethod
@@ -646,6 +657,22 @@ class ContainerValue:
             )
         else:
             return cls(condition=condition, label=label)
+
+    def to_spec(self):
+        """Get a spec that can be passed to `ContainerValue.from_spec`."""
+        TYPE_LOOKUP = {
+            MapValue: "map_value",
+            ListValue: "list_value",
+            MapOrListValue: "map_or_list_value",
+        }
+        spec = {"type": TYPE_LOOKUP[type(self)]}
+        for name in ("condition", "list_condition", "map_condition"):
+            cnd = getattr(self, name, None)
+            if cnd is not None and not cnd.is_null:
+                spec[name] = cnd.to_json_like()
+        if self.label is not None:
+            spec["label"] = self.label
+        return spec
 
     def __truediv__(self, other):
         """Concatenating with other DictValue, ListValue or DataPath objects."""
